@@ -25,6 +25,17 @@ CLAIMED = {
         "watchdog in ./check, never as a violation.",
         "DESIGN.md section 4, C01",
     ),
+    "C18": (
+        "proptest random search: totality over every cursor index, and a differential validity/completeness oracle against the built command's item set and the real parser, shrinking",
+        "Part A calls the engine at every cursor index of argv built from generated trees (incl. hyphen-accepting args, unknown flags, "
+        "non-UTF-8): only Ok or the plain 'no completion' error are allowed. Part B places the cursor where a new argument may start "
+        "(after a subcommand path and complete tokens) with a word that is a prefix of a legal token: every option/subcommand candidate "
+        "must extend the word, name an item of the reached level and not be UnknownArgument/InvalidSubcommand for the real parser; every "
+        "visible item with a visible spelling extending the word must be represented; hidden items only when nothing visible matches.",
+        "current_dir None, no path hints (no file system); value candidates are not judged; words that look like negative numbers are "
+        "excluded from completeness (engine's documented heuristic); shell adapters not covered.",
+        "DESIGN.md section 4, C18",
+    ),
     "C19": (
         "proptest random search over generated command trees x adversarial text substitutions; no-panic, determinism, coverage, and a metamorphic control-line-invariance oracle (same page shape as an innocuous twin), shrinking",
         "Man pages are rendered for every level of generated trees: no panic in render or any section renderer, two renders identical, "
